@@ -74,11 +74,21 @@ def _guard_kind(ctx: Ctx, fi, st: ast.If) -> str | None:
         m = ctx.folder.fold(fi.module, r)
         if "flag_bits" in l:
             return f"<zip-flag:{m}>"
-        if l == "flags":
-            return f"<fib-flag:{m}>"
-    if isinstance(t, ast.Compare) and norm(t) == "decrypt_result == 0":
-        return "<pdf-decrypt>"
+        if isinstance(t.left, ast.Name) and any("FIB_FLAGS_OFFSET" in norm(d) for d in _defs(fi, t.left.id)):
+            return f"<fib-flag:{m}>"  # the local holding the 16-bit FIB flag word, whatever it is called
+    if isinstance(t, ast.Compare) and len(t.ops) == 1 and isinstance(t.ops[0], ast.Eq) and isinstance(t.left, ast.Name) and isinstance(t.comparators[0], ast.Constant) and t.comparators[0].value == 0:
+        ds = _defs(fi, t.left.id)
+        if ds and any(isinstance(d, ast.Call) and isinstance(d.func, ast.Attribute) and d.func.attr == "decrypt" for d in ds):
+            return "<pdf-decrypt>"
     return None
+
+
+def _defs(fi, name: str):
+    return [n.value for n in walk_own(fi.node) if isinstance(n, ast.Assign) and any(isinstance(t, ast.Name) and t.id == name for t in n.targets)]
+
+
+def _is_encrypted_test(e) -> bool:
+    return isinstance(e, ast.Attribute) and e.attr == "is_encrypted" and isinstance(e.value, ast.Name)
 
 
 def rule_det(ctx: Ctx) -> RuleReport:
@@ -100,7 +110,7 @@ def rule_det(ctx: Ctx) -> RuleReport:
                 if k != "<pdf-decrypt>":
                     return False
                 conds, _, _ = path_conditions(f.node, st)
-                return "reader.is_encrypted" in {str(c) for c in conds}
+                return any(str(c).endswith(".is_encrypted") and "(" not in str(c) for c in conds)
             return k == det
 
         mp = MustPass(ctx, is_guard)
@@ -109,7 +119,7 @@ def rule_det(ctx: Ctx) -> RuleReport:
             raise AnalysisError(f"C08-DET: {name} has no yield")
         if det == "<pdf-decrypt>":
             # a plain PDF legitimately bypasses the decrypt test: the obligation is on the `reader.is_encrypted` test
-            outer = [n for n in walk_own(fi.node) if isinstance(n, ast.If) and norm(n.test) == "reader.is_encrypted"]
+            outer = [n for n in walk_own(fi.node) if isinstance(n, ast.If) and _is_encrypted_test(n.test)]
             inner_ok = False
             for o in outer:
                 for n in ast.walk(o):
@@ -118,9 +128,11 @@ def rule_det(ctx: Ctx) -> RuleReport:
             cfg = ctx.cfg(fi)
             if outer and inner_ok and all(all(normally_dominates(cfg, cfg.evaluators(outer[0].test), b) for b in cfg.evaluators(y)) for y in ys):
                 # decrypt_result must come from reader.decrypt("")
-                src = [n for n in walk_own(fi.node) if isinstance(n, ast.Assign) and norm(n.targets[0]) == "decrypt_result"]
-                vals = {norm(s.value) for s in src}
-                if vals == {"reader.decrypt('')", "0"}:
+                inner = [n for o in outer for n in ast.walk(o) if isinstance(n, ast.If) and n is not o and _guard_kind(ctx, fi, n) == "<pdf-decrypt>"]
+                dname = inner[0].test.left.id
+                rname = outer[0].test.value.id
+                vals = {norm(d) for d in _defs(fi, dname)}
+                if vals == {f"{rname}.decrypt('')", "0"}:
                     rep.ok({"extractor": name, "detector": "reader.is_encrypted -> decrypt('') == 0 -> raise", "dominates_yields": len(ys)})
                 else:
                     rep.fail(Finding("C08-DET", fi.module.rel, name, ", ".join(sorted(vals)), "decrypt_result is not {reader.decrypt(''), 0 on failure}: the empty-password probe changed", line=fi.node.lineno))
@@ -154,14 +166,16 @@ def rule_det(ctx: Ctx) -> RuleReport:
         if loop is None or not (isinstance(loop, ast.For) and norm(loop.iter).endswith(".infolist()")):
             rep.fail(Finding("C08-DET", ARCH, z.qual, norm(g.test), "the encryption-flag test is not evaluated in a loop over zf.infolist()", line=g.lineno))
             continue
-        extra = {str(c) for c in conds} - {"not info.is_dir()"}
+        lv = loop.target.id if isinstance(loop.target, ast.Name) else "?"
+        extra = {str(c) for c in conds} - {f"not {lv}.is_dir()"}
         if extra or opaque:
             rep.fail(Finding("C08-DET", ARCH, z.qual, "flag test only if " + " and ".join(sorted(extra) + opaque),
                              f"the encryption-flag test is skipped for some entries ({sorted(extra) + opaque}): an archive whose only encrypted members are ones the reader would skip is not rejected as encrypted", line=g.lineno))
         else:
             rep.ok({"zip": "flag bit tested for every non-directory entry"})
         afters = cfg.loop_after.get(id(loop), [])
-        reads = [c for c in calls_in(z) if isinstance(c.func, ast.Attribute) and c.func.attr in ("read", "open", "extract", "extractall") and norm(c.func.value) == "zf"]
+        zf = norm(loop.iter)[: -len(".infolist()")]  # the archive object whose entries are tested
+        reads = [c for c in calls_in(z) if isinstance(c.func, ast.Attribute) and c.func.attr in ("read", "open", "extract", "extractall") and norm(c.func.value) == zf]
         ys = [n for n in walk_own(z.node) if isinstance(n, (ast.Yield, ast.YieldFrom))]
         for tnode in reads + ys:
             if all(normally_dominates(cfg, afters, b) for b in cfg.evaluators(tnode)):
@@ -259,7 +273,8 @@ def rule_over(ctx: Ctx) -> RuleReport:
                         break
                     earlier += [(dotted(e) or "").split(".")[-1] for e in (h2.type.elts if isinstance(h2.type, ast.Tuple) else [h2.type])] if h2.type is not None else ["BaseException"]
                 guarded_calls = [c for st in t.body for c in ast.walk(st) if isinstance(c, ast.Call)]
-                zip_call = any(isinstance(c.func, ast.Attribute) and c.func.attr in ("read", "open") and norm(c.func.value) == "zf" for c in guarded_calls)
+                zf_names = {it.optional_vars.id for w in walk_own(fi.node) if isinstance(w, ast.With) for it in w.items if isinstance(it.optional_vars, ast.Name) and "ZipFile" in norm(it.context_expr)}
+                zip_call = any(isinstance(c.func, ast.Attribute) and c.func.attr in ("read", "open") and norm(c.func.value) in zf_names for c in guarded_calls)
                 if not zip_call:
                     rep.fail(Finding("C08-OVER", fi.module.rel, fi.qual, "except " + ",".join(names), "an exception is converted into the file-encrypted error around calls for which no encryption-only exception is known", line=h.lineno))
                     continue
@@ -309,7 +324,7 @@ def rule_const(ctx: Ctx) -> RuleReport:
         chk(k == "<fib-flag:256>", "DOC guard mask", DOC, pc.qual, norm(t.test), f"the DOC encryption test `{norm(t.test)}` masks {k}; only bit 8 (0x0100) means encrypted — other FIB bits (fObfuscated 0x8000, ...) must be ignored")
     if not tests:
         rep.fail(Finding("C08-CONST", DOC, pc.qual, "FIB flag test", "the FIB encryption test vanished"))
-    flags_def = [n for n in walk_own(pc.node) if isinstance(n, ast.Assign) and norm(n.targets[0]) == "flags"]
+    flags_def = [n for n in walk_own(pc.node) if isinstance(n, ast.Assign) and isinstance(n.targets[0], ast.Name) and tests and isinstance(tests[0].test, ast.BinOp) and isinstance(tests[0].test.left, ast.Name) and n.targets[0].id == tests[0].test.left.id]
     chk(len(flags_def) == 1 and "FIB_FLAGS_OFFSET" in norm(flags_def[0].value) and "_UINT16" in norm(flags_def[0].value), "flags = uint16 at FIB_FLAGS_OFFSET", DOC, pc.qual,
         norm(flags_def[0].value) if flags_def else "?", "`flags` is not the 16-bit word at FIB_FLAGS_OFFSET")
     z = ctx.p.func(ARCH, "_extract_from_zip_optimized")
@@ -317,7 +332,8 @@ def rule_const(ctx: Ctx) -> RuleReport:
     for g in zg:
         chk(_guard_kind(ctx, z, g) == "<zip-flag:1>", "ZIP general purpose bit 0", ARCH, z.qual, norm(g.test), "the ZIP encryption test must mask exactly bit 0 of flag_bits")
     x = ctx.p.func(ENC, "is_xls_encrypted")
-    cmp_ = [n for n in walk_own(x.node) if isinstance(n, ast.Compare) and norm(n.left) == "record_id"]
+    cmp_ = [n for n in walk_own(x.node) if isinstance(n, ast.Compare) and isinstance(n.left, ast.Name) and len(n.ops) == 1 and isinstance(n.ops[0], ast.Eq) and isinstance(ctx.folder.fold(x.module, n.comparators[0]), int)
+            and any(isinstance(i, ast.If) and i.test is n and any(isinstance(r, ast.Return) and isinstance(r.value, ast.Constant) and r.value.value is True for r in ast.walk(i)) for i in walk_own(x.node))]
     chk(len(cmp_) == 1 and isinstance(cmp_[0].ops[0], ast.Eq) and ctx.folder.fold(x.module, cmp_[0].comparators[0]) == 0x002F, "BIFF FILEPASS 0x002F", ENC, x.qual,
         norm(cmp_[0]) if cmp_ else "?", "is_xls_encrypted must look for record id 0x002F (FILEPASS)")
     streams = {n.value for n in walk_own(x.node) if isinstance(n, ast.Constant) and isinstance(n.value, str) and n.value in ("Workbook", "Book")}
